@@ -24,6 +24,34 @@ pub struct InferenceTable<I: Interner> { _p: core::marker::PhantomData<I> }
 #[derive(Clone, Copy)]
 pub struct DebruijnIndex { pub depth: u32 }
 
+// ---- the kinds of types (chalk-ir/src/lib.rs `TyKind`, extracted; its payload types are opaque here).  Not used by the
+// tree's `visit_ty`, which descends into EVERY type; present so that a variant of `visit_ty` that looks at the kind
+// before descending is held against "only a kind without type arguments has no components" (see `Ty::kind` below).
+#[verifier::external_body] #[verifier::reject_recursive_types(I)] pub struct AdtId<I: Interner> { _p: core::marker::PhantomData<I> }
+#[verifier::external_body] #[verifier::reject_recursive_types(I)] pub struct AssocTypeId<I: Interner> { _p: core::marker::PhantomData<I> }
+#[verifier::external_body] #[verifier::reject_recursive_types(I)] pub struct OpaqueTyId<I: Interner> { _p: core::marker::PhantomData<I> }
+#[verifier::external_body] #[verifier::reject_recursive_types(I)] pub struct FnDefId<I: Interner> { _p: core::marker::PhantomData<I> }
+#[verifier::external_body] #[verifier::reject_recursive_types(I)] pub struct ClosureId<I: Interner> { _p: core::marker::PhantomData<I> }
+#[verifier::external_body] #[verifier::reject_recursive_types(I)] pub struct CoroutineId<I: Interner> { _p: core::marker::PhantomData<I> }
+#[verifier::external_body] #[verifier::reject_recursive_types(I)] pub struct ForeignDefId<I: Interner> { _p: core::marker::PhantomData<I> }
+#[verifier::external_body] #[verifier::reject_recursive_types(I)] pub struct Substitution<I: Interner> { _p: core::marker::PhantomData<I> }
+#[verifier::external_body] #[verifier::reject_recursive_types(I)] pub struct Const<I: Interner> { _p: core::marker::PhantomData<I> }
+#[verifier::external_body] #[verifier::reject_recursive_types(I)] pub struct Lifetime<I: Interner> { _p: core::marker::PhantomData<I> }
+#[verifier::external_body] #[verifier::reject_recursive_types(I)] pub struct DynTy<I: Interner> { _p: core::marker::PhantomData<I> }
+#[verifier::external_body] #[verifier::reject_recursive_types(I)] pub struct AliasTy<I: Interner> { _p: core::marker::PhantomData<I> }
+#[verifier::external_body] #[verifier::reject_recursive_types(I)] pub struct FnPointer<I: Interner> { _p: core::marker::PhantomData<I> }
+#[verifier::external_body] pub struct Scalar { _p: () }
+#[verifier::external_body] pub struct Mutability { _p: () }
+#[verifier::external_body] pub struct PlaceholderIndex { _p: () }
+#[verifier::external_body] pub struct BoundVar { _p: () }
+#[verifier::external_body] pub struct InferenceVar { _p: () }
+#[verifier::external_body] pub struct TyVariableKind { _p: () }
+//@TYPE file=chalk-ir/src/lib.rs kind=enum name=TyKind attrs="#[verifier::reject_recursive_types(I)]"
+/// the kinds that carry no type, lifetime or constant argument (chalk-ir's definition of TyKind, read off the variants above)
+pub open spec fn is_leaf_kind<I: Interner>(k: TyKind<I>) -> bool {
+    k is Scalar || k is Str || k is Never || k is Foreign || k is Error || k is Placeholder || k is BoundVar || k is InferenceVar
+}
+
 
 
 /// std::cmp::max: "Returns the second argument if the comparison determines them to be equal."
@@ -60,6 +88,14 @@ impl<I: Interner> InferenceTable<I> {
     { unimplemented!() }
 }
 impl<I: Interner> Ty<I> {
+    pub uninterp spec fn spec_kind(&self) -> TyKind<I>;
+    /// chalk-ir `Ty::kind`.  ASSUMED with it: a type of a kind without arguments has no components (and nothing is
+    /// assumed about the components of any other kind)
+    #[verifier::external_body]
+    pub fn kind(&self, interner: I) -> (r: &TyKind<I>)
+        ensures *r == self.spec_kind(),
+            is_leaf_kind(*r) ==> forall|table: InferenceTable<I>| #[trigger] component_nodes(table, *self) == 0,
+    { unimplemented!() }
     /// HAVOC (generic visit driver): `visit_with` on a type calls the visitor's `visit_ty` on it — induction hypothesis
     #[verifier::external_body]
     pub fn visit_with<'a>(&self, visitor: &mut TySizeVisitor<'a, I>, outer_binder: DebruijnIndex) -> (r: ControlFlow<()>)
